@@ -268,7 +268,11 @@ func (p *Pool) runCase(w *worker, req *Req) (*worker, *Result) {
 		var beginCPU, lastCPU time.Duration
 		idle := 0
 		finished := false
-		timer := time.NewTimer(p.budget(req, inputLen) + 60*time.Second) // building the case
+		// Outside a call only the harness runs (building the case, JSON): no
+		// verdict hangs on that period, it only has to outlast a machine
+		// that is starving the worker.
+		const outside = 5 * time.Minute
+		timer := time.NewTimer(outside)
 		for !finished {
 			select {
 			case raw, ok := <-w.lines:
@@ -315,7 +319,7 @@ func (p *Pool) runCase(w *worker, req *Req) (*worker, *Result) {
 					}
 					res.Recs = append(res.Recs, *msg.R)
 					cur = ""
-					timer.Reset(p.budget(req, inputLen) + 5*time.Second)
+					timer.Reset(outside)
 				case msg.Done != "":
 					res.Err = msg.Err
 					res.Data = msg.Data
@@ -339,8 +343,10 @@ func (p *Pool) runCase(w *worker, req *Req) (*worker, *Result) {
 					budget := p.budget(req, inputLen)
 					now := procCPU(w.cmd.Process.Pid)
 					used := now - beginCPU
+					// blocked: no CPU used between two looks AND no thread waiting
+					// for a processor (a starved process uses no CPU either)
 					blocked := false
-					if lastCPU >= 0 && now-lastCPU < 30*time.Millisecond {
+					if lastCPU >= 0 && now-lastCPU < 30*time.Millisecond && !anyThreadRunnable(w.cmd.Process.Pid) {
 						idle++
 						blocked = idle >= 2
 					} else if lastCPU >= 0 {
@@ -471,4 +477,23 @@ func procCPU(pid int) time.Duration {
 		return 0
 	}
 	return time.Duration(ut+st) * 10 * time.Millisecond // USER_HZ = 100
+}
+
+// anyThreadRunnable reports whether some thread of the process is running or
+// waiting for a processor (state R in /proc/<pid>/task/*/stat).
+func anyThreadRunnable(pid int) bool {
+	ents, err := os.ReadDir(fmt.Sprintf("/proc/%d/task", pid))
+	if err != nil {
+		return false
+	}
+	for _, e := range ents {
+		raw, err := os.ReadFile(fmt.Sprintf("/proc/%d/task/%s/stat", pid, e.Name()))
+		if err != nil {
+			continue
+		}
+		if i := bytes.LastIndexByte(raw, ')'); i >= 0 && i+2 < len(raw) && raw[i+2] == 'R' {
+			return true
+		}
+	}
+	return false
 }
